@@ -121,6 +121,19 @@ CHECKS = {
         'technique': 'TLA+ design model (PluginChain) exhaustively checked + TLC-generated programs executed on the real plugin chain + '
                      'TLC trace validation (TraceChain) of the recorded hook-call logs',
     },
+    'C14': {
+        'text': 'Reference request-target parser in TLA+ (Target.tla: origin / absolute / authority form, reg-names, IPv4, bracketed IPv6, '
+                'explicit / default ports, userinfo), independent of proxy/http/url.py. Targets generated from components (host '
+                'spellings x ports incl. 0 and 65535 x userinfo variants x paths with reserved characters) plus damaged variants go '
+                'through the REAL HttpParser and through the REAL handler + HttpProxyPlugin on in-memory sockets, where the outbound '
+                'connection is observed at the socket-module seam (host string as handed to the OS layer, port, literal-or-name '
+                'dispatch). TLC (TraceTarget) decides: derived host/port/path = reference, connection to exactly that host (IPv6 without '
+                'brackets) and port, uninterpretable targets rejected and never connected.',
+        'design_ref': 'DESIGN.md section 6, C14',
+        'note': 'Trusted: TLC, SimNet. Unbracketed multi-colon hosts (patched up as IPv6 by the implementation, pinned by the repository '
+                'tests) and absolute URLs as CONNECT target are left unconstrained.',
+        'technique': 'TLA+ reference URL parser (Target.tla) + TLC validation (TraceTarget) of recorded parser results and socket-level connects',
+    },
     'C15': {
         'text': 'Reference codec in TLA+ (Http.tla) whose own laws are model-checked exhaustively (CodecLaws: Dechunk o Enchunk = id for '
                 'every body <= L over a chunk-syntax alphabet, every chunk size <= S, arbitrary tails; message laws). Recorded executions '
